@@ -463,6 +463,20 @@ func (r *runner) doCommit(q Req) {
 			continue // still locked (a wrong lock is reported by the sweep)
 		}
 		r.c.Count("keys_committed_by_refused_commit", 1)
+		{
+			// A COMMIT the client was told has failed must not have decided part of the
+			// transaction: the server validates every named key before it touches any.
+			class := "other"
+			switch {
+			case ke.GetCommitTsExpired() != nil:
+				class = "commit-ts-expired"
+			case ke.GetLocked() != nil:
+				class = "locked"
+			case ke.GetAbort() != "":
+				class = "abort"
+			}
+			r.fail("C18", "C18|refused-commit-applied-some-keys|error="+class, fmt.Sprintf("COMMIT of T%d was refused (%s), yet k%d lost its lock and carries the commit record: the transaction is committed on that key while the client saw a failure", t.ID, kerr(ke), k), map[string]any{"key": kq(r.keys[k])}, false)
+		}
 		if rb >= 0 {
 			r.fail("C18", "C18|commit-after-rollback|other-keys-committed", fmt.Sprintf("COMMIT of T%d (keys incl. rolled-back k%d) was refused, yet it committed k%d", t.ID, rb, k), nil, false)
 		}
